@@ -1,6 +1,7 @@
 import SpVerif.Lemmas.Winding
 import SpVerif.Lemmas.WindQ
 import SpVerif.Lemmas.Triangle
+import SpVerif.Lemmas.Fan
 import SpVerif.Model.GeomProto
 /-!
 # C02 — point-versus-shape `intersects` is exact
@@ -14,7 +15,7 @@ segment" means.
 * polygon / multipolygon: the winding loop is pinned down operator by operator (`C02_edge_rule`, its geometric reading
   `C02_edge_rule_geometric`), shown antisymmetric under reversal of an edge and of a ring, **zero outside the bounding box** of a
   closed ring and **constant along every horizontal or vertical segment, hence on every box, that contains no point of the
-  ring** (`C02_winding_far`, `C02_winding_moves`, `C02_winding_constant_off_ring`, and jumping by exactly the edge's direction when one edge is crossed, `C02_winding_jump`; for triangles the full statement - `±1` strictly inside, `0` strictly outside - is proved (`C02_triangle_inside`, `C02_triangle_outside`): the formalised Appendix B of DESIGN.md, stated
+  ring** (`C02_winding_far`, `C02_winding_moves`, `C02_winding_constant_off_ring`, and jumping by exactly the edge's direction when one edge is crossed, `C02_winding_jump`; for triangles the full statement - `±1` strictly inside, `0` strictly outside - is proved (`C02_triangle_inside`, `C02_triangle_outside`), and for every ring the number is the sum over its fan triangles (`C02_fan_decomposition`), hence in general position the signed number of fan triangles covering the point (`C02_signed_cover`): the formalised Appendix B of DESIGN.md, stated
   at rational points and tied to the coded loop by `C02_winding_rational`), and the decision logic "inside a shell and in none
   of its holes" is derived from the per-ring facts (`C02_polygon_logic`, `C02_multipolygon_logic`).  What is **not** proved is the
   topological fact that for a *simple* ring every point off the ring can be joined to infinity crossing the ring transversally
@@ -151,6 +152,36 @@ theorem C02_triangle_outside (a b c p : Pt) :
     rw [winding_eq_sum]
     simp only [List.map_cons, List.map_nil, List.sum_cons, List.sum_nil, ringWinding_eq]
     rw [triangle_cw_outside a b c p hA hout]; decide
+
+/-- **fan decomposition** (any ring, any point, no side condition): the coded winding number of the closed ring
+`v0, v1, …, vk, v0` is the sum of the coded winding numbers of the fan triangles `v0, vi, vi+1, v0`; the contributions of the
+diagonals cancel exactly (`edgeContrib` is antisymmetric under reversal even for a point on the diagonal) -/
+theorem C02_fan_decomposition (p v0 : Pt) (l : List Pt) (hl : l ≠ []) :
+    ringWinding p (v0 :: l ++ [v0]) = fanSum p v0 l := by
+  rw [ringWinding_eq]; exact fan_decomposition p v0 l hl
+
+/-- **signed covering number** (what the winding number means, for every ring in general position with respect to the point): if no
+fan triangle `v0, vi, vi+1` is degenerate and `p` lies on the boundary of none, the coded winding number is the number of
+counter-clockwise fan triangles that contain `p` strictly minus the number of clockwise ones - the classical signed area cover, for
+self-intersecting and non-convex rings alike, without the Jordan curve theorem.  In particular `point_intersects_polygon` on one
+ring answers True exactly when that signed count is non-zero -/
+theorem C02_signed_cover (p v0 : Pt) (l : List Pt) (hl : l ≠ []) (hg : FanGeneral p v0 l) :
+    ringWinding p (v0 :: l ++ [v0]) = coverSum p v0 l ∧
+    (pointPolygon p [v0 :: l ++ [v0]] = true ↔ coverSum p v0 l ≠ 0) := by
+  have h : ringWinding p (v0 :: l ++ [v0]) = coverSum p v0 l := by
+    rw [ringWinding_eq]; exact signed_cover p v0 l hl hg
+  refine ⟨h, ?_⟩
+  unfold pointPolygon pointInRings
+  rw [winding_eq_sum]
+  simp only [List.map_cons, List.map_nil, List.sum_cons, List.sum_nil, Int.add_zero, h]
+  simp
+
+/-! non-vacuity: a non-convex ring whose fan from `(0,0)` has a clockwise triangle; `(3,2)` is inside the ring (cover +1),
+`(2,3)` lies in the notch (cover 0) -/
+example : FanGeneral (3, 2) (0, 0) [(4,0),(4,4),(2,1),(0,4)] ∧ coverSum (3, 2) (0, 0) [(4,0),(4,4),(2,1),(0,4)] = 1 ∧
+          FanGeneral (2, 3) (0, 0) [(4,0),(4,4),(2,1),(0,4)] ∧ coverSum (2, 3) (0, 0) [(4,0),(4,4),(2,1),(0,4)] = 0 ∧
+          triCover (3, 2) (0, 0) (4, 4) (2, 1) = 0 ∧ orientI (0, 0) (4, 4) (2, 1) < 0 := by
+  simp [FanGeneral, OffBoundary, coverSum, triCover, orientI]
 
 /-- sum over the holes of `[p inside h]` when at most one hole contains `p` -/
 theorem sum_ind_le_one (ins : List Pt → Bool) (holes : List (List Pt))
